@@ -14,7 +14,7 @@ import dates as D   # noqa: E402
 from parallel import driver_parallel  # noqa: E402
 
 GEN = ['DateK', 'Calendar', 'DateLogic']
-PROPS = ['FinVerif.Props.C16', 'FinVerif.Props.C16b']
+PROPS = ['FinVerif.Props.C16', 'FinVerif.Props.C16b', 'FinVerif.Props.C16c']
 DRIVERS = ['FinVerif.Driver.C16']
 SPEC_DRIVERS = ['FinVerif.Driver.C16Spec']
 
